@@ -162,13 +162,18 @@ class _BoolBin(Contract):
     def post(self, c, r, x, y):
         xa, ya = c.eva(x), _ba(c, y)
         hyp = And(is01(xa), is01(ya))
-        return {
+        d = {
             "V.type": isinstance(r, c.LinCombBool),
             "V.value": Implies(is01(c.v(x)), Eq(c.v(r), self.table(c.v(x), _bv(c, y)))),
             "V.inv": c.inv(r),
             "S.table": Implies(hyp, c.eva(r) == self.table(xa, ya)),
             "S.bool": Implies(hyp, is01(c.eva(r))),
         }
+        if isinstance(y, c.LinComb):
+            # a RAW secret operand is made boolean by the operation itself (its booleanity constraint): the result,
+            # typed boolean, is 0 or 1 whatever the prover puts on that operand's wire
+            d["S.raw_operand_forced_boolean"] = Implies(And(on(c), is01(xa)), is01(c.eva(r)))
+        return d
 
     def counts(self, c, x, y):
         if isinstance(y, int):
